@@ -268,10 +268,12 @@ def r_live(E):
     rel, c, ms = _cls(pm)
     # summary 1: ModelingUpdate may skip every change (no-op detection)
     rel2, pc = pm.find_function(MU, "ModelingUpdate.parse_changes_list")
-    may_skip = any(isinstance(n, ast.Compare) and norm(n) == "old_value == new_value" for n in ast.walk(pc)) and \
+    may_skip = any(isinstance(n, ast.Compare) and len(n.ops) == 1 and isinstance(n.ops[0], ast.Eq)
+                   and isinstance(n.left, ast.Name) and isinstance(n.comparators[0], ast.Name) for n in ast.walk(pc)) and \
         any(isinstance(n, ast.Delete) for n in ast.walk(pc))
     # summary 2: when it does not skip, it installs a different list object
-    installs_new = any(isinstance(n, ast.Assign) and "ListLinkedToModelingObj(new_value)" in norm(n.value)
+    installs_new = any(isinstance(n, ast.Assign) and isinstance(n.value, ast.Call)
+                       and norm(n.value.func) == "ListLinkedToModelingObj" and len(n.value.args) == 1
                        for n in ast.walk(pc))
     W = "ListLinkedToModelingObj"
     for m in ("__setitem__", "append", "insert", "extend", "pop", "remove", "clear", "__delitem__", "__imul__"):
